@@ -906,7 +906,8 @@ class Fxp():
                 val_dtype = object
                 val = val.astype(object)
             else:
-                val = val.astype(original_vdtype)
+                if not (val.dtype.kind == 'u' and original_vdtype == int):
+                    val = val.astype(original_vdtype)       # (unsigned 64-bit values stay as they are: 2**63 and above are no int64)
                 val_dtype = np.int64 if self.signed else np.uint64
 
             # rounding and overflowing
@@ -1312,7 +1313,10 @@ class Fxp():
     # math operations
     
     def __neg__(self):
-        y = Fxp(-self.val, signed=self.signed, n_word=self.n_word, n_frac=self.n_frac, raw=True)
+        val = self.val
+        if val.dtype.kind == 'u':
+            val = val.astype(np.int64)      # (codes of an unsigned word of less than 64 bits: their opposites are negative numbers, not 2**64 - code)
+        y = Fxp(-val, signed=self.signed, n_word=self.n_word, n_frac=self.n_frac, raw=True)
         return y
 
     def __pos__(self):
